@@ -26,6 +26,7 @@ import (
 	"github.com/sassoftware/relic/v8/lib/pkcs9"
 	"github.com/sassoftware/relic/v8/lib/x509tools"
 
+	"verifharness/c10"
 	"verifharness/hx"
 )
 
@@ -106,10 +107,10 @@ func (d detSigner) Sign(_ io.Reader, digest []byte, opts crypto.SignerOpts) ([]b
 }
 
 type ident struct {
-	name   string
-	key    crypto.Signer
-	cert   *x509.Certificate
-	isRSA  bool
+	name  string
+	key   crypto.Signer
+	cert  *x509.Certificate
+	isRSA bool
 }
 
 func mustRSA(p string) *rsa.PrivateKey {
@@ -461,12 +462,12 @@ type foreignSpec struct {
 	secondAlg   bool // an additional, unsorted digest algorithm in the outer set
 	trailing    bool // an extra element after signerInfos (Go ignores and drops it)
 	twoSigners  bool
-	unauth      bool // an unauthenticated attribute of our own
+	unauth      bool   // an unauthenticated attribute of our own
 	unauthRaw   []byte // if set: the unauthenticated attributes (their encodings, concatenated) instead
-	attrExtra   bool // an attribute SEQUENCE with a third element (dropped by a parse/re-marshal of the list, kept by the raw bytes)
+	attrExtra   bool   // an attribute SEQUENCE with a third element (dropped by a parse/re-marshal of the list, kept by the raw bytes)
 	content     []byte
 	ctype       asn1.ObjectIdentifier // nil = data
-	nonMinAttrs int // >0: non-minimal length octets on the [0] element (BER)
+	nonMinAttrs int                   // >0: non-minimal length octets on the [0] element (BER)
 	nonMinSI    int
 	nonMinCI    int
 	indefinite  bool
@@ -837,6 +838,12 @@ func Gen(w *bufio.Writer, seed uint64, tier string) {
 	}
 	// (d) field-level: every edit entry point on SignedData values that populate every field
 	genEdits(p, r, scale)
+	// (e) a timestamp token obtained from an authority is unchanged by later replies (real tsclient against the fake TSA of C10)
+	for _, style := range []string{"rfc", "legacy"} {
+		for _, n := range []int{1, 3} {
+			p("tskeep %s %d", style, n)
+		}
+	}
 	// (b2) the builder rule
 	for i := 0; i < 120*scale; i++ {
 		m := r.Intn(5)
@@ -861,6 +868,16 @@ func Gen(w *bufio.Writer, seed uint64, tier string) {
 			fmt.Fprintf(&sb, " %s %s", hx.Hex(oid), hx.Hex(randTLV(r)))
 		}
 		content := r.Bytes(r.Intn(50))
+		switch i % 6 {
+		case 1:
+			// content that is itself a well-formed DER OCTET STRING (a xar TOC digest starting 04 1e, a nested blob):
+			// it must be digested and emitted as it is, never unwrapped
+			content = tl(0x04, r.Bytes(1+r.Intn(40)))
+		case 3:
+			content = tl(0x04, tl(0x04, r.Bytes(r.Intn(20))))
+		case 5:
+			content = [][]byte{tl(0x30, r.Bytes(r.Intn(30))), append(tl(0x04, r.Bytes(5)), 0x00), tl(0x24, tl(0x04, r.Bytes(3))), {0x04, 0x00}, tl(0x04, r.Bytes(130))}[r.Intn(5)]
+		}
 		ct := oidContent(randOid(r))
 		d := sha256.Sum256(content)
 		p("sign %s-%d %s %s %d%s %s", kind, i%len(idents), hx.Hex(ct), hx.Hex(d[:]), m, sb.String(), hx.Hex(content))
@@ -1236,12 +1253,53 @@ func implSign(f []string) string {
 	// the signature must be over `signed` (or over the content digest when there are no attributes)
 	_, verr := psd2.Content.Verify(nil, false)
 	parsedAab := aabOf(si2)
-	return fmt.Sprintf("ok signed=%s a0=%s || parsedaab=%s verify=%s %s", signed, hx.Hex(a0), parsedAab, vstr(verr), requiredAttrs(si2, content))
+	// independent of lib/pkcs7's own notion of "the content": (1) the detached copy must verify against the original
+	// content bytes, (2) the signature value itself must be over sha256(attribute bytes), or over sha256(content)
+	// when there are no attributes, checked with the key directly
+	// the emitted eContent must be the content itself
+	emitted := "same"
+	var eci struct {
+		Type    asn1.ObjectIdentifier
+		Content asn1.RawValue `asn1:"optional"`
+	}
+	var inner asn1.RawValue
+	if _, err := asn1.Unmarshal(psd2.Content.ContentInfo.Raw, &eci); err != nil {
+		emitted = "differs:" + strings.ReplaceAll(err.Error(), " ", "_")
+	} else if _, err := asn1.Unmarshal(eci.Content.Bytes, &inner); err != nil || !bytes.Equal(inner.Bytes, content) {
+		emitted = "differs"
+	} else if eb, err := psd2.Content.ContentInfo.Bytes(); err != nil || !bytes.Equal(eb, content) {
+		emitted = "bytes-differs" // the structure holds the content but ContentInfo.Bytes() reports something else
+	}
+	detv := "err"
+	if dcontent, err := psd2.Detach(); err != nil {
+		detv = "err:detach"
+	} else if !bytes.Equal(dcontent, content) {
+		detv = "err:detached-content-differs"
+	} else if _, err := psd2.Content.Verify(content, false); err != nil {
+		detv = "err:" + errClass(err)
+	} else {
+		detv = "ok"
+	}
+	msg := content
+	if a0 != nil {
+		msg, _ = si2.AuthenticatedAttributesBytes()
+	}
+	dg := sha256.Sum256(msg)
+	direct := 0
+	switch pub := id.key.Public().(type) {
+	case *rsa.PublicKey:
+		direct = b01(rsa.VerifyPKCS1v15(pub, crypto.SHA256, dg[:], si2.EncryptedDigest) == nil)
+	case *ecdsa.PublicKey:
+		direct = b01(ecdsa.VerifyASN1(pub, dg[:], si2.EncryptedDigest))
+	}
+	return fmt.Sprintf("ok signed=%s a0=%s || parsedaab=%s verify=%s %s detv=%s direct=%d emitted=%s", signed, hx.Hex(a0), parsedAab, vstr(verr), requiredAttrs(si2, content), detv, direct, emitted)
 }
 
 func Impl() {
 	hx.EachLine(func(f []string) string {
 		switch f[0] {
+		case "tskeep":
+			return c10.OpKeep(f[1:])
 		case "enclen":
 			n := int(hx.Atoi(f[1]))
 			out, err := asn1.Marshal(asn1.RawValue{Tag: 4, Bytes: make([]byte, n)})
